@@ -28,8 +28,8 @@ from pathlib import Path
 
 VERIF = Path(__file__).resolve().parent.parent
 LEAN = VERIF / "lean"
-EVID = VERIF / "evidence"
-REPLAYS = VERIF / "replays"
+EVID = Path(os.environ.get("VERIF_EVIDENCE_DIR", VERIF / "evidence"))
+REPLAYS = Path(os.environ.get("VERIF_REPLAY_DIR", VERIF / "replays"))
 REPO = Path(os.environ.get("MOLGRI_REPO", "/repo"))
 ALLOWED_AXIOMS = {"propext", "Classical.choice", "Quot.sound"}
 FORBIDDEN = re.compile(r"\bsorry\b|\badmit\b|^\s*axiom\s|native_decide|bv_decide|implemented_by|\bunsafe\s|maxHeartbeats\s+0\b|@\[extern",
@@ -108,7 +108,7 @@ def _lake(args, timeout=3000):
 
 
 def lean_sources():
-    return sorted(list((LEAN / "Molgri").rglob("*.lean")) + [LEAN / "Driver.lean", LEAN / "Molgri.lean"])
+    return sorted(list((LEAN / "Molgri").rglob("*.lean")) + list((LEAN / "drivers").glob("*.lean")))
 
 
 def strip_comments(src: str) -> str:
@@ -137,13 +137,18 @@ def strip_comments(src: str) -> str:
     return "".join(out)
 
 
+def load_theorems(prop: str) -> list:
+    f = LEAN / "theorems" / f"{prop}.json"
+    return json.loads(f.read_text()) if f.exists() else []
+
+
 def build_and_audit(prop: str) -> dict:
     """Steps A and B.  Returns {'ok':bool, 'obligations':n, 'discharged':m, 'problems':[...], 'theorems':[...]}."""
     res = {"ok": True, "problems": [], "obligations": 0, "discharged": 0, "theorems": [], "axioms": {}}
     lock = open(LEAN / ".build.lock", "w")
     fcntl.flock(lock, fcntl.LOCK_EX)
     try:
-        r = _lake(["build"])
+        r = _lake(["build"])  # whole library (globs = Molgri.+)
         if r.returncode != 0:
             res["ok"] = False
             res["problems"].append("lake build failed: " + (r.stdout + r.stderr)[-2000:])
@@ -157,7 +162,7 @@ def build_and_audit(prop: str) -> dict:
             res["ok"] = False
             res["problems"].append(f"forbidden token {m.group(0).strip()!r} in {p.relative_to(VERIF)}")
     # B2 axiom audit of this property's theorems
-    thms = json.loads((LEAN / "theorems.json").read_text()).get(prop, [])
+    thms = load_theorems(prop)
     res["theorems"] = thms
     res["obligations"] = len(thms)
     if not thms:
@@ -203,9 +208,10 @@ def build_and_audit(prop: str) -> dict:
 class LeanDriver:
     """Batch line protocol: feed a list of dict ops, get a list of results ({'ok':..} / {'err':..})."""
 
-    def __init__(self):
+    def __init__(self, prop):
         self.calls = 0
         self.lines = 0
+        self.file = f"drivers/{prop}.lean"
 
     def run(self, ops: list, timeout=3000) -> list:
         if not ops:
@@ -213,7 +219,7 @@ class LeanDriver:
         self.calls += 1
         self.lines += len(ops)
         data = "\n".join(json.dumps(o, separators=(",", ":")) for o in ops) + "\n"
-        r = subprocess.run(["lake", "env", "lean", "--run", "Driver.lean"], cwd=LEAN, input=data,
+        r = subprocess.run(["lake", "env", "lean", "--run", self.file], cwd=LEAN, input=data,
                            capture_output=True, text=True, timeout=timeout)
         outs = [l for l in r.stdout.split("\n") if l.strip()]
         if r.returncode != 0 or len(outs) != len(ops):
@@ -238,7 +244,7 @@ class Ctx:
         self.corr_breaks = []        # correspondence disagreements (C)
         self.failures = []           # failing inputs of the property on the implementation (S)
         self.notes = []
-        self.driver = LeanDriver()
+        self.driver = LeanDriver(prop)
         self.rule = ""
         self.exhaustive = None
         self.extra_cov = {}
@@ -278,8 +284,6 @@ class Ctx:
         self.dist[name] = self.dist.get(name, 0) + n
 
     def model(self, ops):
-        for o in ops:
-            o.setdefault("p", self.prop)
         return self.driver.run(ops)
 
     def corr(self, what: str, case, impl, model):
@@ -322,16 +326,17 @@ class Ctx:
             rc = 1
             REPLAYS.mkdir(exist_ok=True)
             replay_path = REPLAYS / f"{self.prop}_{self.tier}_{self.seed}.json"
+            shown = replay_path.relative_to(VERIF) if VERIF in replay_path.parents else replay_path
             rep = {"property": self.prop, "tier": self.tier, "seed": self.seed,
                    "failing_inputs": unlisted[:10], "n_failing_inputs": len(unlisted),
                    "broken": broken,
-                   "how_to_replay": f"/venv/bin/python harness/run.py {self.prop} --replay {replay_path.relative_to(VERIF)}"}
+                   "how_to_replay": f"/venv/bin/python harness/run.py {self.prop} --replay {shown}"}
             if not unlisted:
                 rep["no_failing_input_found"] = True
                 rep["no_longer_checks"] = [b["kind"] + ": " + (b["first"]["correspondence"] if b["kind"] == "correspondence" else "; ".join(b["problems"])[:500]) for b in broken]
             replay_path.write_text(json.dumps(rep, indent=1, default=str))
             tail = "" if unlisted else " no-failing-input-found"
-            lines.append(f"VIOLATION property={self.prop} replay={replay_path.relative_to(VERIF)}{tail}")
+            lines.append(f"VIOLATION property={self.prop} replay={shown}{tail}")
         ev = {
             "property_id": self.prop, "tier": self.tier, "seed": self.seed, "level": "proof",
             "coverage": {
